@@ -157,7 +157,7 @@ func (m *MonAgreement) AfterStep(nw *Network) {
 			continue
 		}
 		app := n.App
-		if n.ResetEpochs > 0 && n.InsertFailedStep >= 0 {
+		if n.unjudgedAfterReset() {
 			// "for as long as it can insert the events it receives": a reset node
 			// that had to refuse events is no longer judged
 			if m.processed[app] < len(app.Delivered) {
@@ -178,6 +178,14 @@ func (m *MonAgreement) AfterStep(nw *Network) {
 						// a validator-set change reached one of the two nodes only after it
 						// had already assigned events to the round at which it takes effect
 						sig = m.Prop + ":block-disagreement-after-late-validator-set-change"
+					} else if m.Prop == "C13" && onlyFrameHashDiffers(c.d, d) {
+						a := nw.Nodes[c.from]
+						if fa, ea := a.Core.Hg().Store.GetFrame(d.Body.RoundReceived); ea == nil {
+							if fb, eb := n.Core.Hg().Store.GetFrame(d.Body.RoundReceived); eb == nil && resetNodeAssignsLowerRounds(a, fa, n, fb) {
+								// a recorded, specific way in which a reset node's frames differ (known_findings.json)
+								sig = "C13:reset-node-assigns-lower-round-to-late-event"
+							}
+						}
 					}
 					nw.violate(m.Prop, sig,
 						fmt.Sprintf("node %d delivered block %d differing from what node %d delivered for the same index", n.Idx, d.Index, c.from),
@@ -446,7 +454,39 @@ func frameDiffNodes(a, b *SimNode, rr int) interface{} {
 	fa, ea := a.Core.Hg().Store.GetFrame(rr)
 	fb, eb := b.Core.Hg().Store.GetFrame(rr)
 	if ea == nil && eb == nil {
-		out["frame_diff"] = frameDiff(fa, fb)
+		d := frameDiff(fa, fb)
+		out["frame_diff"] = d
+		// events to which the two nodes assign different rounds: who strongly sees what
+		if len(fa.Events) == len(fb.Events) {
+			for i := range fa.Events {
+				x, y := fa.Events[i], fb.Events[i]
+				if x.Core.Hex() == y.Core.Hex() && x.Round != y.Round {
+					out["round_trace"] = map[string]interface{}{"a": roundTrace(a, x.Core.Hex()), "b": roundTrace(b, x.Core.Hex())}
+					break
+				}
+			}
+		}
+		if len(d) == 0 {
+			// the structural comparison sees nothing: compare the encodings
+			ja, _ := json.Marshal(fa)
+			jb, _ := json.Marshal(fb)
+			ha, _ := fa.Hash()
+			hb, _ := fb.Hash()
+			out["stored_frame_hashes"] = fmt.Sprintf("%x vs %x", ha, hb)
+			if string(ja) != string(jb) {
+				i := 0
+				for i < len(ja) && i < len(jb) && ja[i] == jb[i] {
+					i++
+				}
+				lo := i - 200
+				if lo < 0 {
+					lo = 0
+				}
+				out["first_encoding_difference_at"] = i
+				out["encoding_a_around"] = string(ja[lo:minInt(len(ja), i+200)])
+				out["encoding_b_around"] = string(jb[lo:minInt(len(jb), i+200)])
+			}
+		}
 	}
 	for name, n := range map[string]*SimNode{"a": a, "b": b} {
 		if ri, err := n.Core.Hg().Store.GetRound(rr); err == nil {
@@ -502,4 +542,116 @@ func lateSetChangeBefore(n *SimNode, rr int) int {
 		}
 	}
 	return c
+}
+
+// roundTrace explains the round a node assigns to an event: its parents'
+// rounds and which witnesses of the parent round it strongly sees there.
+func roundTrace(n *SimNode, hash string) map[string]interface{} {
+	h := n.Core.Hg()
+	out := map[string]interface{}{"node": n.Idx, "resets": n.ResetEpochs}
+	ev, err := h.Store.GetEvent(hash)
+	if err != nil {
+		out["error"] = err.Error()
+		return out
+	}
+	r, _ := h.VerifRound(hash)
+	out["round"] = r
+	pr := -1
+	for k, p := range []string{ev.SelfParent(), ev.OtherParent()} {
+		name := []string{"self_parent", "other_parent"}[k]
+		if p == "" {
+			continue
+		}
+		if rr, err := h.VerifRound(p); err == nil {
+			out[name+"_round"] = rr
+			if rr > pr {
+				pr = rr
+			}
+		} else {
+			out[name+"_round"] = "unknown: " + err.Error()
+		}
+	}
+	out["parent_round"] = pr
+	if ri, err := h.Store.GetRound(pr); err == nil {
+		ps, _ := h.Store.GetPeerSet(pr)
+		ws := []string{}
+		for _, w := range ri.Witnesses() {
+			ss, err := h.VerifStronglySee(hash, w, ps)
+			c := -1
+			if we, e2 := h.Store.GetEvent(w); e2 == nil {
+				if sn := n.nw.nodeByPub(we.Creator()); sn != nil {
+					c = sn.Idx
+				}
+			}
+			ws = append(ws, fmt.Sprintf("witness %s (creator %d): strongly seen=%v err=%v", trunc(w, 10), c, ss, err))
+		}
+		sort.Strings(ws)
+		out["parent_round_witnesses"] = ws
+		if ps != nil {
+			out["supermajority"] = ps.SuperMajority()
+		}
+	} else {
+		out["parent_round_info"] = "missing: " + err.Error()
+	}
+	return out
+}
+
+// onlyFrameHashDiffers: two deliveries of the same block index that agree on
+// everything but the frame hash.
+func onlyFrameHashDiffers(x, y *Delivered) bool {
+	a, b := x.Body, y.Body
+	a.FrameHash, b.FrameHash = nil, nil
+	da := &Delivered{Index: x.Index, Body: a, Resp: x.Resp}
+	db := &Delivered{Index: y.Index, Body: b, Resp: y.Resp}
+	return blockDigest(da) == blockDigest(db)
+}
+
+// resetNodeAssignsLowerRounds: the two frames hold the same events, peers,
+// roots and peer-sets and differ only in that the node that was reset by
+// fast-sync (exactly one of the two) gives some events a lower round (and
+// possibly another witness flag) than the other node.
+func resetNodeAssignsLowerRounds(a *SimNode, fa *hg.Frame, b *SimNode, fb *hg.Frame) bool {
+	if (a.ResetEpochs > 0) == (b.ResetEpochs > 0) {
+		return false
+	}
+	if a.ResetEpochs > 0 {
+		a, fa, b, fb = b, fb, a, fa
+	}
+	// b is the reset node
+	if fa == nil || fb == nil || len(fa.Events) != len(fb.Events) || fa.Round != fb.Round || fa.Timestamp != fb.Timestamp {
+		return false
+	}
+	lower := 0
+	cmp := func(x, y *hg.FrameEvent) bool {
+		if x.Core.Hex() != y.Core.Hex() || x.Core.Signature != y.Core.Signature || x.LamportTimestamp != y.LamportTimestamp {
+			return false
+		}
+		if x.Round != y.Round || x.Witness != y.Witness {
+			if y.Round >= x.Round {
+				return false
+			}
+			lower++
+		}
+		return true
+	}
+	for i := range fa.Events {
+		if !cmp(fa.Events[i], fb.Events[i]) {
+			return false
+		}
+	}
+	if len(fa.Roots) != len(fb.Roots) {
+		return false
+	}
+	for k, ra := range fa.Roots {
+		rb, ok := fb.Roots[k]
+		if !ok || len(ra.Events) != len(rb.Events) {
+			return false
+		}
+		for i := range ra.Events {
+			if !cmp(ra.Events[i], rb.Events[i]) {
+				return false
+			}
+		}
+	}
+	return lower > 0
 }
